@@ -974,14 +974,20 @@ def evaluate__analyze_string(self: XPathFunction, context: ta.ContextType = None
     input_string = self.get_argument(context, default='', cls=str)
     pattern = self.get_argument(context, 1, required=True, cls=str)
     flags = 0
+    q_flag = False
     if len(self) > 2:
         for c in self.get_argument(context, 2, required=True, cls=str):
             if c in 'smix':
                 flags |= getattr(re, c.upper())
             elif c == 'q' and self.parser.version > '2':
-                pattern = re.escape(pattern)
+                q_flag = True
             else:
                 raise self.error('FORX0001', "Invalid regular expression flag %r" % c)
+
+    if q_flag:
+        # a literal pattern: repeated 'q' flags and the 'x' flag have no effect
+        pattern = re.escape(pattern)
+        flags &= ~re.VERBOSE
 
     try:
         python_pattern = translate_pattern(pattern, flags, self.parser.xsd_version)
